@@ -147,6 +147,11 @@ func vf11RunRemoveSNI(rt *rapid.T, st *vfStats) *vfGridResult {
 	ccfg.OmitEmptyPsk = true
 	ccfg.Rand = vfNewDetRand(rapid.Uint64().Draw(rt, "randseed"), "client")
 	uc := UClient(cp, ccfg, src.ID)
+	if src.SpecFn != nil {
+		if err := uc.ApplyPreset(src.SpecFn()); err != nil {
+			st.Violation(rt, "%s: ApplyPreset: %v", src, err)
+		}
+	}
 	if err := uc.RemoveSNIExtension(); err != nil {
 		st.Violation(rt, "RemoveSNIExtension: %v", err)
 	}
@@ -185,7 +190,9 @@ func TestVerifC11Resumed(t *testing.T) {
 		src := vfGenClientSrc(rt, "src")
 		sni := vfGenDNSName(rt, "sni")
 		cache := NewLRUClientSessionCache(8)
-		mod := func(c *Config) { c.ClientSessionCache = cache }
+		// HelloCustom specs without a session extension on a warm cache hit a documented assertion unless the caller
+		// opts into skipping resumption
+		mod := func(c *Config) { c.ClientSessionCache = cache; c.PreferSkipResumptionOnNilExtension = true }
 		first := vfGridRun(rt, st, "C11", vfGridOpts{Src: &src, SNI: &sni, CCfgMod: mod, KeepOpen: true, OnlySuccess: true, Label: "a_"})
 		if first == nil || !first.OK {
 			return
